@@ -26,6 +26,6 @@ for d in sorted(glob.glob("/verif/seeded/%s*" % pid)):
     except Exception:
         pass
 used += ["- " + n for n in notes]
-t = open("/verif/tools/templates/TASK.md.in").read().replace("@ID@", pid).replace("@R@", rnd).replace("@USED@", "\n".join(used) or "- (nothing yet)")
+t = open(os.environ.get("SEED_TEMPLATE", "/verif/tools/templates/TASK.md.in")).read().replace("@ID@", pid).replace("@R@", rnd).replace("@USED@", "\n".join(used) or "- (nothing yet)")
 open(wt + "/_seed/TASK.md", "w").write(t)
 print("Read %s/_seed/TASK.md and carry out the task exactly as described there (work only inside %s). Finish with the 5-line summary it asks for." % (wt, wt))
